@@ -409,7 +409,7 @@ def minNormWeighted (n : Nat) (A : List (List K)) (tp winv b : List K) : List K 
   let A' := List.zipWith (fun r t => List.zipWith (fun a wi => t * a * wi) r winv) A tp
   let M := gramL A'
   let lam := solveL M (List.zipWith (· * ·) tp b)
-  ((mulVecTL n A' lam), lam, M)
+  (List.zipWith (· * ·) winv (mulVecTL n A' lam), lam, M)
 
 /-- the same step restricted to the free columns (`calcWeightedPqrTranspose` packs rows of `~Pqw`), zero in the
 prescribed slots (`unpackFreeQ` into a zero vector).  Returns `(dq, λ, M)`. -/
